@@ -66,7 +66,7 @@ def theorems_of(prop):
         m = re.search(r"^namespace\s+(\S+)", body, re.M)
         if m:
             ns = m.group(1)
-        names = re.findall(r"^(?:@\[[^\]]*\]\s*)?(?:protected\s+|private\s+)?theorem\s+([A-Za-z0-9_.']+)", body, re.M)
+        names = re.findall(r"^(?:@\[[^\]]*\]\s*)?(?:protected\s+|private\s+)?theorem\s+([A-Za-z0-9_.'?!]+)", body, re.M)
         out += [(ns + "." + n) if ns else n for n in names]
     return out
 
